@@ -15,8 +15,188 @@ RULE = (
     "duplicates) with d drawn from values around the running timer T (T-e, T, T+e: coincidences are constructed); "
     "near-miss/foreign packets; transport faults (write raises, connection lost with/without exception, pause/resume). "
     "Non-trivial = a lost/late echo or reply, >= 3 callers, a fault or foreign traffic, or an observed retransmission; "
-    "distinct by the whole schedule."
+    "distinct by the whole schedule. A sample (480 / 16k schedules restricted to distinct, non-impersonating commands and no "
+    "transport faults) is also executed through Gateway.async_send_cmd on the full stack (real PortTransport on the in-memory "
+    "radio), judged for completion by the deadline (+0.6 s transport slack) with an own packet or a ProtocolError."
 )
+
+
+# ---- a sample of the same schedules on the FULL stack: Gateway.async_send_cmd -> PortProtocol -> real PortTransport ------
+SLACK = 0.6  # s: the transport adds its own waits (50 ms write gap per queued frame, 5 ms radio echo latency)
+
+
+async def _stack_case(loop, case):  # type: ignore[no-untyped-def]
+    import asyncio
+
+    from ramses_tx import exceptions as exc
+    from ramses_tx.command import Command
+    from ramses_tx.const import Priority
+
+    from vf.env import stack, thinfsm as T, vclock
+
+    gwy_id = "18:006402"
+    callers = case["callers"]
+    frames = {i: T.cmd_frame(T.CMDS[c["cmd"]]) for i, c in enumerate(callers)}
+    attempts: dict[int, int] = {}
+
+    class E(stack.Ether):
+        def broadcast(self, frame, origin=None):  # type: ignore[no-untyped-def,override]
+            if origin is None:
+                return super().broadcast(frame, None)
+            self.air_log.append((self.loop.time(), frame))
+            if " 7FFF " in frame:  # signature / impersonation notice: echoed promptly
+                origin.receive(frame, rssi="000")
+                return
+            i = next((k for k, f in frames.items() if f.replace(T.HGI, gwy_id) == frame and not tasks.get(k, _Done).done()), None)
+            if i is None:
+                i = next((k for k, f in frames.items() if f.replace(T.HGI, gwy_id) == frame), None)
+            if i is None:
+                origin.receive(frame, rssi="000")
+                return
+            attempts[i] = a = attempts.get(i, 0) + 1
+            writes.append({"t": self.loop.time(), "caller": i, "attempt": a})
+            fate = case.get("fates", {}).get(f"{i}:{a}", {"echo": {"d": 0.01}, "reply": {"d": 0.03}})
+            c = T.CMDS[callers[i]["cmd"]]
+            e, r = fate.get("echo"), fate.get("reply")
+            if e:
+                self.loop.call_later(max(0.0, e["d"] - 0.005), origin.receive, frame, "000")
+                if e.get("dup"):
+                    self.loop.call_later(max(0.0, e["d"] - 0.005) + 0.004, origin.receive, frame, "000")
+            rf = T.reply_frame(c, gwy_id)
+            if r and rf:
+                self.loop.call_later(max(0.0, r["d"] - 0.005), origin.receive, rf, "045")
+                if r.get("dup"):
+                    self.loop.call_later(max(0.0, r["d"] - 0.005) + 0.004, origin.receive, rf, "045")
+
+    class _Done:
+        @staticmethod
+        def done() -> bool:
+            return False
+
+    writes: list[dict] = []
+    tasks: dict[int, asyncio.Task] = {}
+    eth = E(loop)
+    gwy, port = await stack.make_gateway(eth, gwy_id=gwy_id, config={"disable_discovery": True, "disable_qos": case.get("disable_qos")})
+    t0 = loop.time()
+    results: dict[int, dict] = {}
+    prios = {0: Priority.HIGHEST, 1: Priority.HIGH, 2: Priority.DEFAULT, 3: Priority.LOW, 4: Priority.LOWEST}
+
+    def labels_of(frame: str) -> list[str]:
+        out = []
+        for spec in callers:
+            c2 = T.CMDS[spec["cmd"]]
+            if frame == T.echo_frame(c2, gwy_id):
+                out.append("echo-of:" + T.cmd_frame(c2))
+            if frame == T.reply_frame(c2, gwy_id):
+                out.append("reply-to:" + T.cmd_frame(c2))
+        return out or ["UNLABELLED"]
+
+    async def caller(i: int, spec: dict) -> None:
+        await asyncio.sleep(spec["t"])
+        rec: dict = {"t_call": loop.time() - t0}
+        results[i] = rec
+        try:
+            pkt = await gwy.async_send_cmd(Command(frames[i]), priority=prios[spec["prio"]], max_retries=spec["max_retries"], timeout=spec["timeout"],
+                                           wait_for_reply=spec["wait"])
+            rec.update(outcome="pkt", is_none=pkt is None, frame=str(pkt) if pkt is not None else None, labels=labels_of(str(pkt)) if pkt is not None else [])
+        except asyncio.CancelledError:
+            rec.update(outcome="pending")
+            raise
+        except BaseException as e:  # noqa: BLE001
+            rec.update(outcome="exc", exc=type(e).__name__, family=isinstance(e, exc.ProtocolError), msg=str(e)[:160])
+        rec["t_done"] = loop.time() - t0
+
+    try:
+        for i, spec in enumerate(callers):
+            tasks[i] = loop.create_task(caller(i, spec))
+        for fo in case.get("foreign", []):
+            c = T.CMDS[callers[fo["of"] % len(callers)]["cmd"]]
+            fr = T.near_miss(c, gwy_id, fo["kind"])
+            if fr:
+                loop.call_at(t0 + fo["t"], eth.inject, fr)
+        done, pending = await asyncio.wait(list(tasks.values()), timeout=max(c["t"] for c in callers) + 60)
+        for p in pending:
+            p.cancel()
+        await asyncio.gather(*pending, return_exceptions=True)
+        await vclock.quiesce()
+    finally:
+        await stack.stop_gateway(gwy)
+        eth.close()
+    for i in range(len(callers)):
+        results.setdefault(i, {"outcome": "pending", "t_call": callers[i]["t"]})
+    return {"results": results, "writes": writes}
+
+
+def judge_stack(case: dict, obs: dict) -> list:
+    from vf.env import thinfsm as T
+
+    out = []
+    for i, spec in enumerate(case["callers"]):
+        rec = obs["results"][i]
+        own = T.cmd_frame(T.CMDS[spec["cmd"]])
+        if rec["outcome"] == "pending":
+            out.append(({"clause": "hang", "how": "never-completes", "level": "stack"}, f"caller {i} ({own}) still pending 60 s after the last call"))
+            continue
+        deadline = rec["t_call"] + min(spec["timeout"], 20.0) + SLACK
+        if rec["t_done"] > deadline:
+            out.append(({"clause": "late", "level": "stack", "outcome": rec["outcome"], "exc": rec.get("exc")},
+                        f"caller {i} done at {rec['t_done']:.3f} > {deadline:.3f} (call {rec['t_call']:.3f}, timeout {spec['timeout']})"))
+        if rec["outcome"] == "pkt":
+            if rec["is_none"]:
+                out.append(({"clause": "returned-none", "level": "stack"}, f"caller {i} got None"))
+            elif f"echo-of:{own}" not in rec["labels"] and f"reply-to:{own}" not in rec["labels"]:
+                out.append(({"clause": "wrong-packet", "level": "stack", "labels": sorted({lb.split(":")[0] for lb in rec["labels"]})},
+                            f"caller {i} sent {own!r} but got {rec['frame']!r} ({rec['labels']})"))
+        elif not rec.get("family"):
+            out.append(({"clause": "wrong-exception", "level": "stack", "exc": rec.get("exc")}, f"caller {i}: {rec.get('exc')}: {rec.get('msg')}"))
+    return out
+
+
+def _stack_ok(case: dict) -> dict | None:
+    """Restrict a generated schedule to what the stack sample models: distinct, non-impersonating commands; no transport faults."""
+    from vf.env import thinfsm as T
+
+    seen, keep = set(), []
+    for c in case["callers"]:
+        cmd = T.CMDS[c["cmd"]]
+        if c["cmd"] in seen or cmd["src"] != T.HGI:
+            continue
+        seen.add(c["cmd"])
+        keep.append(c)
+    if not keep:
+        return None
+    idx = {i: k for k, i in enumerate(i for i, c in enumerate(case["callers"]) if c in keep)}
+    fates = {f"{idx[int(k.split(':')[0])]}:{k.split(':')[1]}": v for k, v in case.get("fates", {}).items() if int(k.split(":")[0]) in idx}
+    foreign = [f for f in case.get("foreign", []) if f["kind"] not in ("other-gwy-echo", "near-dst")]  # C07's listed known findings
+    return {"callers": keep, "fates": fates, "foreign": foreign, "disable_qos": case.get("disable_qos"), "level": "stack"}
+
+
+def explore_stack(job: dict) -> dict:
+    from vf.core import hyp_explore, jdump
+    from vf.env import vclock
+    from vf.env.quiet import quiet_logs
+    from vf.gen.sendsched import classify, schedule
+
+    quiet_logs()
+    col = Collector()
+
+    def body(case0: dict) -> None:
+        case = _stack_ok(case0)
+        if case is None:
+            return
+        obs, lp = vclock.run(_stack_case, case)
+        cl = ["stack"] + [c.replace("sched", "stack") for c in classify(case) if c != "sched"]
+        if any(w["attempt"] >= 2 for w in obs["writes"]):
+            cl.append("stack:retransmission")
+        col.case(nt=jdump(case) if len(cl) > 1 else None, classes=cl,
+                 sample={"callers": case["callers"], "fates": case["fates"], "outcomes": {str(i): (r.get("outcome"), r.get("exc"), r.get("t_done")) for i, r in obs["results"].items()}})
+        if lp.exc_contexts:
+            col.note("stack: loop exception (recorded): " + f"{lp.exc_contexts[0].get('exception')!r}"[:100], len(lp.exc_contexts))
+        for sig, d in judge_stack(case, obs):
+            col.violation(sig, case, d)
+
+    hyp_explore(schedule(max_callers=6, faults=False), body, job["n"], job["seed"])
+    return col.dump()
 
 
 def run(ctx: Ctx, col: Collector) -> None:
@@ -28,9 +208,17 @@ def run(ctx: Ctx, col: Collector) -> None:
     ]
     ctx.parallel(_send.explore, ctx.shards(ctx.n(3600, 140_000), pid=PID), col)
     ctx.parallel(_send.explore, ctx.shards(ctx.n(400, 10_000), per_shard_min=10, pid=PID, big_queue=True), col)
+    ctx.parallel(explore_stack, ctx.shards(ctx.n(480, 16_000), per_shard_min=10), col)
     ctx.floors = [("sched:timer-coincidence", "sched", 0.05), ("sched:disconnect-or-write-failure", "sched", 0.08),
                   ("sched:3+callers", "sched", 0.2), ("sched:loss", "sched", 0.3)]
 
 
 def replay(case: dict) -> list[tuple[dict, str]]:
+    if case.get("level") == "stack":
+        from vf.env import vclock
+        from vf.env.quiet import quiet_logs
+
+        quiet_logs()
+        obs, _ = vclock.run(_stack_case, case)
+        return judge_stack(case, obs)
     return _send.replay_case(PID, case)
